@@ -90,6 +90,33 @@ def run(rep, tier, seed, replay=None, proof_ok=True):
     with mp.get_context('fork').Pool(14) as pool:
         results = pool.map(pc._case_job, [(n, t, seed) for n, t in cases], chunksize=2)
     shown = 0
+    # the main translation unit of a multi-file module: one forward declaration and one call per additional file, each a
+    # complete statement (the splice of the submodule list into the template is a place where a `;` can get lost)
+    for j, (name, text, it, outs) in enumerate(results):
+        if j % 4 or not outs:
+            continue
+        subs = [['extra'], ['part_b', 'alpha'], ['z9', 'core', 'mid']][(j // 4) % 3]
+        st, out = pc.impl_wrap(text, ([''], [], False), 'mod', subs)
+        if st != 'ok':
+            continue
+        rep.hit(pc.common.sha(text + repr(subs) + 'main'), True)
+        rep.bump('main_units_with_submodules')
+        bad = direct(out)
+        for sname in subs:
+            for pat, what in ((r'^\s*void %s\(py::module_ ?&\)(.*)$' % sname, 'forward declaration'),
+                              (r'^\s*%s\(m_\)(.*)$' % sname, 'initialiser call')):
+                ms = re.findall(pat, out, re.M)
+                if len(ms) != 1:
+                    bad.append('%s of %s appears %d times' % (what, sname, len(ms)))
+                elif ms[0].strip() != ';':
+                    bad.append('%s of %s is not a complete statement (followed by %r)' % (what, sname, ms[0]))
+        for b in bad:
+            if b.startswith('redeclared:') and reopened(it[1]):
+                continue
+            if shown < 3:
+                shown += 1
+                rep.violation({'kind': 'counterexample', 'what': 'direct C09 check failed on the main unit of a multi-file module: ' + b,
+                               'input': text, 'submodules': subs, 'impl': out[:4000]})
     for name, text, it, outs in results:
         for cfg, (st, out) in outs:
             if st != 'ok':
